@@ -46,8 +46,19 @@ theorem C15_effect_iff_selected_nested (p : Items) (k : Nat) (s : St)
   items_ok p k s s.state s.parents hB hP (closeGE_of_below hB) (popGE_of_below hP)
     (fun _ => closeGE_of_below (hB.mono (Nat.le_succ k)))
 
-example : Below 3 (St.init.state) ∧ BelowP 3 [(1, Comp.nm "g"), (0, Comp.cs 1)] :=
-  ⟨by intro b hb; simp [St.init] at hb, belowP_cons (by decide)⟩
+/-- The hypotheses are satisfiable by non-trivial states: after `@case false` (resp. `@case true`)
+    at indent 0 the state has one open branch; at indent 1 the theorem applies, with all
+    nodes skipped (resp. taken). -/
+example :
+    (match run St.init [⟨0, "", .case false⟩] with
+      | .ok (s, _) => decide (s.state.length = 1 ∧ s.state.all (fun b => b.cur.indent < 1) ∧
+          s.parents.all (fun p => p.1 < 1) ∧ falseCase s.state = true)
+      | .error _ => false) = true ∧
+    (match run St.init [⟨0, "", .case true⟩] with
+      | .ok (s, _) => decide (s.state.length = 1 ∧ s.state.all (fun b => b.cur.indent < 1) ∧
+          s.parents.all (fun p => p.1 < 1) ∧ falseCase s.state = false)
+      | .error _ => false) = true := by
+  decide
 
 /-- Nodes outside a block are unaffected by what is inside it: whatever two items (e.g. two
     blocks with different truth values, clauses and contents) stand between the item
@@ -88,11 +99,12 @@ example : (match parse (exampleProgram.render 0) with | .ok o => some o | .error
 
 /-- For EVERY sequence of lines (not only rendered trees; any indents, any mixture of nodes,
     groups and clause lines): if some `@else` has no open `@case` clause at its indent, or some
-    `@end` no open `@case`/`@else` clause at its indent — "open at indent `k`" defined
-    declaratively on the text: the latest earlier line indented no deeper than `k` is such a
-    clause line written at exactly `k` (`specOpenAt`) — then parsing fails.  Covers `@else`/`@end`
-    at the start, after `@end`, after a block closed by a shallower or equally indented line,
-    deeper than their `@case`, a second `@else`, and all of these inside unselected clauses. -/
+    `@end` no open `@case`/`@else` clause at its indent, or some `@case` continues an `@else`
+    — "open at indent `k`" defined declaratively on the text: the latest earlier line indented
+    no deeper than `k` is such a clause line written at exactly `k` (`specOpenAt`) — then
+    parsing fails.  Covers `@else`/`@end` at the start, after `@end`, after a block closed by a
+    shallower or equally indented line, deeper than their `@case`, a second `@else`, a `@case`
+    after `@else`, and all of these inside unselected clauses. -/
 theorem C15_misplaced_rejected (ls : List Line) (h : misplaced ls = true) : parse ls = .error () := by
   have := run_misplaced inv_init h
   simp [parse, this]
@@ -101,8 +113,8 @@ example : misplaced [⟨0, "", .case true⟩, ⟨2, "a", .node false 1⟩, ⟨0,
   decide
 
 /-- … and conversely the declarative notion is not too eager: the rendered lines of a
-    program tree are accepted (main theorem), so by the theorem above none of their
-    `@else`/`@end` is misplaced. -/
+    program tree are accepted (main theorem), so by the theorem above none of their clause
+    lines is misplaced. -/
 theorem C15_rendered_not_misplaced (p : Items) : misplaced (p.render 0) = false := by
   cases h : misplaced (p.render 0) with
   | false => rfl
@@ -111,18 +123,15 @@ theorem C15_rendered_not_misplaced (p : Items) : misplaced (p.render 0) = false 
     rw [C15_effect_iff_selected] at h1
     cases h1
 
-/-- A clause after `@else`: in any state in which (after closing what is deeper) the block on
-    top was written at this indent under the same parent and its current clause is `@else`,
-    a further `@case` or `@else` at that indent is refused. -/
+/-- A clause after `@else`, as a statement about any machine state (reachable or not): if,
+    after closing what is deeper, the block on top was written at this indent under the same
+    parent and its current clause is `@else`, a further `@case` or `@else` there is refused. -/
 theorem C15_clause_after_else_rejected (s : St) (k : Nat) (x : String) (blk : Branch) (B : List Branch)
     (kw : Kw) (hkw : kw = .els ∨ ∃ c, kw = .case c)
     (hB : closeGE (k + 1) s.state = blk :: B) (hi : blk.cur.indent = k)
     (hpath : blk.cur.path = fullName (popGE k s.parents)) (ht : blk.cur.ctype = .els) :
-    step s ⟨k, x, kw⟩ = .error () := by
-  have hp := path_cons k (.cs (s.numCases + 1)) (popGE k s.parents)
-  have hc := closeFor_same (path := fullName (popGE k s.parents)) hB hi hpath
-  rcases hkw with rfl | ⟨c, rfl⟩ <;>
-    simp [step, solveCase, hp, hc, register, topIsElse, ht]
+    step s ⟨k, x, kw⟩ = .error () :=
+  step_after_else s k x blk B kw hkw hB hi hpath ht
 
 /-- Non-vacuity of the hypotheses above, and the whole-text version on an instance:
     `@case false` / `a` / `@else` / `a` / `@case true` is refused. -/
